@@ -368,11 +368,35 @@ def one_predicate(case, impl):
 
 # ------------------------------------------------------------------ whole documents
 ARG_VALUES = [1, 0, -7, 2.5, 1e-9, "abc", "", True, False, None, [1, 2, [3, "x"]], [0.5], {"k": 1}, "data/img.fits"]
-RANGE_EXPR = [
+_FIXED_EXPR = [
     ("[1, 2, 4]", [1, 2, 4]), ("numpy.linspace(1, 4, 4)", [1.0, 2.0, 3.0, 4.0]), ("numpy.arange(1, 6, 2)", [1, 3, 5]),
     ("numpy.arange(0.5, 2.5, 0.5)", [0.5, 1.0, 1.5, 2.0]), ("range(1, 4)", [1, 2, 3]), ("numpy.logspace(0, 2, 3)", [1.0, 10.0, 100.0]),
     ("numpy.array([1, 5, 9]) / 2", [0.5, 2.5, 4.5]), ("(2, 3)", [2, 3]),
 ]
+# expressions whose values need more than 12 decimals (tiny magnitudes, thirds, long mantissas, fractional steps):
+# the numbers they denote are what numpy itself computes — evaluated by the harness, compared bit for bit
+_NUMPY_EXPR = [
+    "numpy.logspace(-14, -12, 3)", "numpy.linspace(1, 2, 4)", "numpy.linspace(1e-13, 4e-13, 4)", "numpy.arange(0.1, 0.75, 0.1)",
+    "numpy.linspace(0.1, 0.9, 7)", "numpy.array([1, 2, 3]) / 7", "numpy.geomspace(1e-15, 1e-3, 5)", "numpy.linspace(1/3, 2/3, 3)",
+    "numpy.arange(1, 2, 1/7)", "numpy.linspace(0.123456789012345, 0.987654321098765, 5)", "numpy.sqrt(numpy.arange(2, 6))",
+    "numpy.arange(1e-9, 5e-9, 1.1e-9)", "numpy.cumsum(numpy.full(6, 0.1))", "numpy.logspace(-3, 0, 4) / 3",
+]
+_RANGE_CACHE = []
+
+
+def denote_expr(expr):
+    """the numbers a numpy expression denotes: numpy's own evaluation (floats stay floats, ints stay ints)"""
+    import numpy
+
+    arr = eval(expr, {"numpy": numpy}, {})  # noqa: S307
+    return [float(v) for v in arr] if arr.dtype == float else [int(v) for v in arr]
+
+
+def range_exprs():
+    if not _RANGE_CACHE:
+        _RANGE_CACHE.extend(_FIXED_EXPR)
+        _RANGE_CACHE.extend((e, denote_expr(e)) for e in _NUMPY_EXPR)
+    return _RANGE_CACHE
 
 
 def gen_document(rng):
@@ -423,7 +447,7 @@ def gen_document(rng):
     if rng.random() < 0.15:
         pipeline["phasing"] = None
     mode = rng.choice(["exposure", "exposure", "observation"])
-    expr, expected_times = rng.choice(RANGE_EXPR)
+    expr, expected_times = rng.choice(range_exprs())
     readout = rng.choice([None, {}, {"times": expected_times}, {"times": expr}, {"times": expr, "non_destructive": True},
                           {"times": expected_times, "start_time": 0.25 if min(expected_times) > 0.25 else 0.0}])
     if readout and "times" in readout:
@@ -431,10 +455,13 @@ def gen_document(rng):
         readout["_expected"] = expected_times
     doc = {"kind": kind, "det": det, "pipeline": pipeline, "mode": mode, "readout": readout}
     if mode == "observation":
-        e2, exp2 = rng.choice(RANGE_EXPR[:6])
+        pool = [(e, v) for e, v in range_exprs() if e != "(2, 3)" and "array([1, 5, 9])" not in e]
+        e2, exp2 = rng.choice(pool)
         key = rng.choice(["detector.environment.temperature", "detector.characteristics.quantum_efficiency"])
         if key.endswith("quantum_efficiency"):
-            e2, exp2 = rng.choice([("[0.25, 0.5]", [0.25, 0.5]), ("numpy.linspace(0, 1, 3)", [0.0, 0.5, 1.0])])
+            qpool = [(e, v) for e, v in pool if all(0 <= x <= 1 for x in v)] + \
+                    [("[0.25, 0.5]", [0.25, 0.5]), ("numpy.linspace(0, 1, 3)", [0.0, 0.5, 1.0]), ("numpy.linspace(0, 1, 7)", denote_expr("numpy.linspace(0, 1, 7)"))]
+            e2, exp2 = rng.choice(qpool)
         doc["parameters"] = [{"key": key, "values": rng.choice([e2, exp2]), "_expected": exp2}]
         doc["obs_mode"] = rng.choice(["product", "sequential"])
     return doc
